@@ -379,6 +379,24 @@ def oracle_c15(script, ig, mg):
                 return fails
             # over a limit after a write => every resident id above the boundary
             mx, cap, bd = int(m.group(3)), int(m.group(4)), m.group(5)
+            # the limits are the configured ones (of the last `cfg` line before the store was opened),
+            # whatever the store reports
+            cur = {}
+            nprim = -1
+            pend = {}
+            for l in script:
+                if l.startswith("cfg"):
+                    pend = dict(x.split("=") for x in l.split()[1:])
+                if l.split()[0] not in NO_OUTPUT:
+                    nprim += 1
+                    if l == "open":
+                        cur = pend
+                    if nprim >= i:
+                        break
+            if cur.get("ci", "-") != "-":
+                mx = int(cur["ci"])
+            if cur.get("cc", "-") != "-":
+                cap = int(cur["cc"])
             if (items > mx or size > cap) and ig[i].evs is not None:
                 if bd != "-" and res:
                     bt, bi = [int(x) for x in bd.split(",")]
@@ -783,6 +801,15 @@ def scripts_c15(tier, rng):
                        f"app 1,{n - 1},aa", "stat", "res", f"app 1,{n},bb", "stat", "res", "flush 6", "widle", "drain",
                        "stat", "res"]
         out.append((nm, lines))
+    # one append that has to evict many entries at once (a whole large chunk becomes evictable)
+    for j in range(2 if tier == "quick" else 8):
+        mr = rng.choice([40, 64, 100])
+        n = mr - 1
+        lines = [f"cfg mr={mr} ci={rng.choice([0, 3, 8])}", "open",
+                 "app " + " ".join(f"1,{x},{gen.rnd_bytes_token(rng, [7])}" for x in range(n)), "stat", "res",
+                 "flush 1", "widle", "stat", "res", f"app 1,{n},aa", "stat", "res", f"app 1,{n + 1},bb", "stat", "res",
+                 "flush 2", "widle", "drain", "stat", "res"]
+        out.append((f"c15many_{j}", lines))
     stats["recovery-with-small-cache"] = 6 if tier == "quick" else 40
     return out, stats
 
@@ -870,8 +897,8 @@ PROPS = {
         assumptions=OS_ASSUMPTIONS + ["harness built with overflow-checks and debug-assertions on"],
     ),
     "C15": dict(
-        modules=["C15", "C15Restart", "C15Call"],
-        theorems=['c15_append_call_unchanged_or_only_pinned', 'c15_append_call_inserted_iff', 'c15_append_call_only_pinned', 'c15_append_call_first_accepted_only_pinned', 'c15_append_call_first_refused_unchanged', 'c15_call_boundary_unchanged', 'c15_nonappend_cache_subset', 'c15_meta_cache_unchanged', 'c15_sys_step_append_only_pinned', 'c15_sys_step_append_store', 'c15_sys_limits_configured', 'c15_sys_append_only_pinned', 'c15_sys_append_only_pinned_with_restarts'] + ['c15_restart_step', 'c15_after_restart', 'c15_accounting_exact_with_restarts', 'c15_accounting_exact_every_point'] + ["c15_accounting_exact", "c15_over_limit_only_pinned", "c15_drained"],
+        modules=['C15', 'C15Restart', 'C15Call', 'LiftRestart'],
+        theorems=['c15_accounting_exact', 'c15_over_limit_only_pinned', 'c15_drained', 'Step.live_of_journal', 'c15_restart_step', 'c15_after_restart', 'cycles_cacheInv', 'c15_accounting_exact_with_restarts', 'cycleOps_append', 'CleanCycles.prefix', 'RefLog.run_prefix_some', 'c15_accounting_exact_every_point', 'c15_append_call_unchanged_or_only_pinned', 'c15_append_call_inserted_iff', 'c15_append_call_only_pinned', 'c15_append_call_first_accepted_only_pinned', 'c15_append_call_first_refused_unchanged', 'c15_call_boundary_unchanged', 'c15_nonappend_cache_subset', 'c15_meta_cache_unchanged', 'c15_sys_step_append_only_pinned', 'c15_sys_step_append_store', 'c15_sys_limits_configured', 'c15_sys_append_only_pinned', 'c15_sys_append_only_pinned_with_restarts', 'lift_oldSynced_spec', 'lift_crashInv_clean_restart', 'lift_oldSynced_of_single_file', 'lift_inv_spec', 'lift_inv_fresh', 'lift_inv_history', 'lift_inv_restart', 'lift_inv_recovered', 'c15_accounting_exact_after_recovery_of_crashInv', 'c15_accounting_exact_after_recovery_history_of_crashInv', 'c15_accounting_exact_after_recovery', 'c15_accounting_exact_after_recovery_history', 'c15_append_only_pinned_after_recovery', 'c08_gap_free_suffix_of_crashInv', 'c08_unlinks_oldest_first_of_crashInv', 'c08_index_entries_in_linked_chunks_of_crashInv', 'c08_unlink_only_after_purge_durable_of_crashInv', 'c08_flushed_idle_gone_of_crashInv', 'c08_clean_files_are_live_chunks_of_crashInv', 'c08_restarted_files_are_live_chunks', 'c08_recovered_files_are_live_chunks', 'lift_clean_holds_no_request', 'c04_positive_callback_means_durable_of_crashInv', 'ReachLIFT', 'lift_csys_keys', 'lift_reach_invariant', 'c11_journal_invariant_reach', 'c15_accounting_exact_reach', 'c08_flushed_idle_gone_reach', 'c04_positive_callback_means_durable_reach', 'liftUnsyncedExample', 'liftUnsyncedRestarted', 'lift_restart_forgets_unsynced_old_chunk', 'lift_c05Example_wf', 'lift_c05Example_inv', 'lift_csys_last', 'lift_c05Recovered_inv', 'liftRestarted', 'liftReachExample', 'lift_reach_c05Recovered', 'lift_reach_restarted', 'lift_reach_example', 'crashInv_clean_restart_LIFT', 'recover_cacheInv_LIFT', 'run_keys_LIFT'],
         gen=scripts_c15, project=proj_c15, oracle=oracle_c15,
         explanation="cache accounting invariant",
         assumptions=OS_ASSUMPTIONS,
@@ -1435,7 +1462,8 @@ def oracle_c02(script, ig, mg):
             if g.line != "open ok":
                 fails.append(("clean-restart-open-failed", {"group": i, "line": g.line}))
                 return fails
-            if g.evs:
+            # (a sync of a file does not modify it)
+            if [e for e in g.evs if not e.startswith("ev sync ")]:
                 fails.append(("open-modified-files-on-clean-restart", {"group": i, "events": g.evs}))
                 return fails
             # queries emitted right before `drop` and right after `open`
@@ -1701,9 +1729,9 @@ def scripts_c02(tier, rng):
 
 
 PROPS.update({
-    "C04": dict(modules=["C04", "C04Sys"], theorems=['c04_positive_callback_means_durable', 'c04_wf_invariant', 'c04_covered_step', 'c04_dying_step', 'c04_covered_rotate', 'c04_covered_flush', 'c04_ack_only_from_syncNew', 'c04_ack_means_synced', 'c04_negative_after_failed_sync', 'c04_step_cbs', 'c04_cbs_in_request_order', 'c04_cb_at_most_once', 'c04_exactly_once_no_fault_measure', 'c04_exactly_once_no_fault', 'c04_wf_reachable', 'c04_covered_sys'], gen=scripts_c04, project=proj_events, oracle=oracle_c04,
+    "C04": dict(modules=['C04', 'C04Sys', 'LiftRestart'], theorems=['c04_wf_invariant', 'c04_covered_step', 'c04_dying_step', 'c04_covered_rotate', 'c04_covered_flush', 'c04_ack_only_from_syncNew', 'c04_ack_means_synced', 'c04_negative_after_failed_sync', 'c04_step_cbs', 'c04_cbs_in_request_order', 'c04_cb_at_most_once', 'c04_exactly_once_no_fault_measure', 'c04_exactly_once_no_fault', 'c04_wf_reachable', 'c04_covered_sys', 'c04_positive_callback_means_durable', 'lift_oldSynced_spec', 'lift_crashInv_clean_restart', 'lift_oldSynced_of_single_file', 'lift_inv_spec', 'lift_inv_fresh', 'lift_inv_history', 'lift_inv_restart', 'lift_inv_recovered', 'c15_accounting_exact_after_recovery_of_crashInv', 'c15_accounting_exact_after_recovery_history_of_crashInv', 'c15_accounting_exact_after_recovery', 'c15_accounting_exact_after_recovery_history', 'c15_append_only_pinned_after_recovery', 'c08_gap_free_suffix_of_crashInv', 'c08_unlinks_oldest_first_of_crashInv', 'c08_index_entries_in_linked_chunks_of_crashInv', 'c08_unlink_only_after_purge_durable_of_crashInv', 'c08_flushed_idle_gone_of_crashInv', 'c08_clean_files_are_live_chunks_of_crashInv', 'c08_restarted_files_are_live_chunks', 'c08_recovered_files_are_live_chunks', 'lift_clean_holds_no_request', 'c04_positive_callback_means_durable_of_crashInv', 'ReachLIFT', 'lift_csys_keys', 'lift_reach_invariant', 'c11_journal_invariant_reach', 'c15_accounting_exact_reach', 'c08_flushed_idle_gone_reach', 'c04_positive_callback_means_durable_reach', 'liftUnsyncedExample', 'liftUnsyncedRestarted', 'lift_restart_forgets_unsynced_old_chunk', 'lift_c05Example_wf', 'lift_c05Example_inv', 'lift_csys_last', 'lift_c05Recovered_inv', 'liftRestarted', 'liftReachExample', 'lift_reach_c05Recovered', 'lift_reach_restarted', 'lift_reach_example', 'crashInv_clean_restart_LIFT', 'recover_cacheInv_LIFT', 'run_keys_LIFT'], gen=scripts_c04, project=proj_events, oracle=oracle_c04,
                 explanation="flush acknowledgement soundness", assumptions=OS_ASSUMPTIONS),
-    "C08": dict(modules=['C08', 'C08Sys'], theorems=['c08_unlink_only_after_good_sync', 'c08_removal_starts_only_after_good_sync', 'c08_lastSyncFailed', 'c08_unlink_in_list_order', 'c08_postponed_in_request_order', 'c08_popObsolete_prefix', 'c08_abut_spec', 'c08_remaining_files_gap_free_suffix', 'c08_unlinks_oldest_first', 'c08_index_entries_in_linked_chunks', 'c08_unlink_only_after_purge_durable', 'c08_no_failed_sync_clean', 'c08_postponed_only_after_failed_sync', 'c08_flushed_idle_gone_always', 'c08_flushed_idle_gone'], gen=scripts_c08, project=proj_c08, oracle=oracle_c08,
+    "C08": dict(modules=['C08', 'C08Sys', 'LiftRestart'], theorems=['c08_unlink_only_after_good_sync', 'c08_removal_starts_only_after_good_sync', 'c08_lastSyncFailed', 'c08_unlink_in_list_order', 'c08_postponed_in_request_order', 'c08_popObsolete_prefix', 'c08_abut_spec', 'c08_remaining_files_gap_free_suffix', 'c08_unlinks_oldest_first', 'c08_index_entries_in_linked_chunks', 'c08_unlink_only_after_purge_durable', 'c08_no_failed_sync_clean', 'c08_postponed_only_after_failed_sync', 'c08_flushed_idle_gone_always', 'c08_flushed_idle_gone', 'lift_oldSynced_spec', 'lift_crashInv_clean_restart', 'lift_oldSynced_of_single_file', 'lift_inv_spec', 'lift_inv_fresh', 'lift_inv_history', 'lift_inv_restart', 'lift_inv_recovered', 'c15_accounting_exact_after_recovery_of_crashInv', 'c15_accounting_exact_after_recovery_history_of_crashInv', 'c15_accounting_exact_after_recovery', 'c15_accounting_exact_after_recovery_history', 'c15_append_only_pinned_after_recovery', 'c08_gap_free_suffix_of_crashInv', 'c08_unlinks_oldest_first_of_crashInv', 'c08_index_entries_in_linked_chunks_of_crashInv', 'c08_unlink_only_after_purge_durable_of_crashInv', 'c08_flushed_idle_gone_of_crashInv', 'c08_clean_files_are_live_chunks_of_crashInv', 'c08_restarted_files_are_live_chunks', 'c08_recovered_files_are_live_chunks', 'lift_clean_holds_no_request', 'c04_positive_callback_means_durable_of_crashInv', 'ReachLIFT', 'lift_csys_keys', 'lift_reach_invariant', 'c11_journal_invariant_reach', 'c15_accounting_exact_reach', 'c08_flushed_idle_gone_reach', 'c04_positive_callback_means_durable_reach', 'liftUnsyncedExample', 'liftUnsyncedRestarted', 'lift_restart_forgets_unsynced_old_chunk', 'lift_c05Example_wf', 'lift_c05Example_inv', 'lift_csys_last', 'lift_c05Recovered_inv', 'liftRestarted', 'liftReachExample', 'lift_reach_c05Recovered', 'lift_reach_restarted', 'lift_reach_example', 'crashInv_clean_restart_LIFT', 'recover_cacheInv_LIFT', 'run_keys_LIFT'], gen=scripts_c08, project=proj_c08, oracle=oracle_c08,
                 explanation="chunk deletion", assumptions=OS_ASSUMPTIONS),
     "C14": dict(modules=['C14', 'C14Busy'], theorems=['c14_worker_terminates_measure', 'c14_fuel_bound', 'c14_fuel_sufficient', 'c14_todoOK_reachable', 'c14_todoOK_invariant', 'c14_worker_terminates', 'c14_worker_terminates_any', 'c14_drop_state', 'c14_after_drop_nothing_moves', 'c14_drop_quiesces', 'c14_drop_none', 'c14_drop_quiesces_reachable', 'c14_drop_quiesces_system', 'c14_busy_drop_eq_idle_drop', 'c14_busy_drop_events', 'c14_busy_senderAlive', 'c14_busy_nothing_postponed', 'c14_busy_nothing_postponed_sync', 'c14_busy_postponed_invariant', 'c14_busy_restart_step', 'c14_busy_drop_then_open_idle', 'c14_busy_drop_then_open', 'c14_after_busy_drop_nothing_changes', 'c14_busy_refinement_continues', 'c14_busy_history_after_restart', 'c14_busy_failed_sync_needed'], gen=scripts_c14, project=proj_events, oracle=oracle_c14,
                 explanation="drop quiesces", assumptions=OS_ASSUMPTIONS),
@@ -1804,8 +1832,8 @@ def scripts_c13(tier, rng):
             mr = 2 + rr.below(2)
             nn = 2 * mr + 1 + rr.below(3)
             lines = [f"cfg mr={mr}", "open", "app " + " ".join(f"1,{x},{gen.rnd_bytes_token(rr, [1, 7])}" for x in range(nn)),
-                     "flush 1", "widle", f"purge 1 {mr + rr.below(nn - mr - 1)}", "flush 9000", "wack 9000", "dropslow",
-                     "open", f"read 0 {U64MAX}", "dumpopen", "drop", "dumpopen", "dumpdrop", "open", "drop"]
+                     "flush 1", "widle", f"purge 1 {mr + rr.below(nn - mr - 1)}", "flush 9000", "wack 9000",
+                     rr.choice(["dropslow", "droppanic"]), "open", f"read 0 {U64MAX}", "dumpopen", "drop", "dumpopen", "dumpdrop", "open", "drop"]
         if i % 6 == 1:
             # a process forked while the store was open still holds a copy of the
             # lock file's descriptor when the owner is dropped
